@@ -581,9 +581,9 @@ B = ("halves", "batch")   # documents written with AddDocTx on a write-only batc
 H, X = ("halves", None), ("extreme", None)
 PLAN = {
     "quick": dict(exh=[("KVIndex_q1.cfg", [H]), ("KVIndex_q2.cfg", [H, B])],
-                  sim=[("KVIndex_sim.cfg", 150, [H, X]), ("KVIndex_simnr.cfg", 100, [B])], volume=[150, 260]),
+                  sim=[("KVIndex_sim.cfg", 100, [H, X]), ("KVIndex_simnr.cfg", 60, [B])], volume=[120, 150]),
     "thorough": dict(exh=[("KVIndex_t0.cfg", [H, X]), ("KVIndex_t1.cfg", [H]), ("KVIndex_t2.cfg", [H, B])],
-                     sim=[("KVIndex_simt.cfg", 2000, [H, X]), ("KVIndex_simnr.cfg", 1000, [B])], volume=[150, 260]),
+                     sim=[("KVIndex_simt.cfg", 600, [H, X]), ("KVIndex_simnr.cfg", 300, [B])], volume=[120, 150]),
 }
 
 ASSUMPTIONS = [
@@ -599,8 +599,9 @@ ASSUMPTIONS = [
     "terms are strings and float64 (other JSON types make AddDoc fail as unsupported and are not generated); no empty string, "
     "no -0.0/NaN/Inf; numbers are spec integers mapped by a strictly increasing embedding (k/2, and a table of float64 "
     "sign/magnitude boundary values: +-MaxFloat64, +-MaxFloat64/2, +-1e200, +-1e100, +-SmallestNonzeroFloat64, 0)",
-    "documents are written with KVIndex.AddDoc; the 2-field exhaustive cfg and the replacement-free random walks "
-    "(Avoid = {replace}) are replayed a second time with AddDocTx on a write-only batch, the way kvgraph feeds the index",
+    "documents are written with KVIndex.AddDoc; the histories of the 2-field exhaustive cfg (queries after the last step) "
+    "and replacement-free random walks (Avoid = {replace}) are also replayed with AddDocTx on a write-only batch, the way "
+    "kvgraph feeds the index",
     "store: Badger only; single client (no concurrent calls); all behaviours are screened in per-behaviour namespaces "
     "(field path and document id renamed injectively) of shared stores with a new KVIndex object each, and every divergence "
     "is reported only after it reproduced alone on a newly created empty store",
@@ -639,7 +640,9 @@ def _run(ctx):
         ctx.log("%s: %d histories (all up to length %d), %d abstract states, %d replays" % (
             cfg, info["histories"], info["maxlen"], len(states), len(behaviours)))
         for emb, via in embs:
-            r = replay_and_compare(ctx, cfg.split(".")[0].replace("KVIndex_", ""), uni_norm(uni), behaviours, answers,
+            # the batch-write variant replays every history with the queries after its last step only
+            sel = behaviours if via is None else [b for b in behaviours if b.sched == "only after the last step"]
+            r = replay_and_compare(ctx, cfg.split(".")[0].replace("KVIndex_", ""), uni_norm(uni), sel, answers,
                                    emb=emb, via=via)
             account(cfg, emb, r, dict(info, exhaustive=True, written_with=via or "AddDoc"))
         if len(ctx.cov["samples"]) < 3:
@@ -647,14 +650,25 @@ def _run(ctx):
             ctx.sample(dict(cfg=cfg, steps=b.steps, observed=b.sched, live_after_last_step=b.states[-1][1],
                             expected_answers_after_last_step=answers[b.states[-1][0]]))
         del behaviours, answers, states
+    # random walks: generate all of them first, then one oracle run per universe (JVM starts are the fixed cost)
+    sims = []
     for cfg, num, embs in plan["sim"]:
         for n, (emb, via) in enumerate(embs):
             uni, states, behaviours, info = gen_walks(ctx, cfg, num, seed=ctx.seed * 7919 + n)
-            answers = run_oracle(ctx, cfg, states, label="oracle " + cfg)
-            ctx.log("%s: %d random histories of length %d, %d abstract states" % (cfg, info["histories"], info["maxlen"], len(states)))
-            r = replay_and_compare(ctx, "sim_" + emb, uni_norm(uni), behaviours, answers, emb=emb, via=via)
-            account(cfg, emb, r, dict(info, exhaustive=False, written_with=via or "AddDoc"))
-            del behaviours, answers, states
+            sims.append((cfg, emb, via, uni_norm(uni), states, behaviours, info))
+    by_uni = {}
+    for cfg, emb, via, uni, states, behaviours, info in sims:
+        g = by_uni.setdefault(json.dumps(uni, sort_keys=True), dict(cfg=cfg, states={}))
+        g["states"].update(states)
+    for g in by_uni.values():
+        # the oracle's sanity laws are checked on every state of the exhaustive universes above
+        g["answers"] = run_oracle(ctx, g["cfg"], g["states"], label="oracle " + g["cfg"], sanity=False)
+    for cfg, emb, via, uni, states, behaviours, info in sims:
+        answers = by_uni[json.dumps(uni, sort_keys=True)]["answers"]
+        ctx.log("%s: %d random histories of length %d, %d abstract states" % (cfg, info["histories"], info["maxlen"], len(states)))
+        r = replay_and_compare(ctx, "sim_" + emb, uni, behaviours, answers, emb=emb, via=via)
+        account(cfg, emb, r, dict(info, exhaustive=False, written_with=via or "AddDoc"))
+    del sims, by_uni
     if plan["volume"]:
         r = volume_probe(ctx, plan["volume"])
         account("KVIndex_vol.cfg n=%s" % plan["volume"], "halves", r, dict(histories=len(plan["volume"]), exhaustive=False))
